@@ -207,13 +207,14 @@ func CheckC07() *nrun.Check {
 			"engine N, scenario family G: members A, B (C) of group g over topic t (3 partitions) as separate real kgo clients against kfake, one scenario per protocol (eager/range, cooperative-sticky, KIP-848)",
 			"script: A joins and owns t; B joins; A polls; B leaves (LeaveGroup or Close); A polls until it owns t again; variants: B AddConsumeTopics(t2), a partition added to t, B leaving inside the join rebalance, a third member",
 			"explored: every order of request/response frame deliveries across the members' connections, application calls and timer ticks within k deviations of the default order (no faults: graceful behaviour only)",
-			"distinct = distinct callback sequences (member, callback kind, number of partitions) per scenario",
+			"distinct = distinct callback sequences (member, START/END, callback kind, number of partitions) per scenario",
 		}, "; "),
 		Assume: []string{
 			"kfake is the group coordinator",
 			"synctests build of xsync",
 			"ticks are harmless: session, rebalance and request timeouts are 5 virtual minutes, a tick lasts at most one",
 			"a revoke/lost callback that names at least one partition takes 1.3 virtual s between its START and END stamps (the application finishing its work)",
+			"members heartbeat with distinct periods (1.0/1.13/1.27 s) and frames that reach the proxy between the same two decision points are ordered by connection name (tied timers and kfake's map-order JoinGroup/SyncGroup replies are not functions of the choice sequence)",
 			"goroutine micro-interleavings inside one event are the Go runtime's",
 		},
 	}
